@@ -54,6 +54,32 @@ pub mod verif {
     pub fn restore_on_err(rule: OptimizedRule, rules: &[OptimizedRule]) -> OptimizedRule {
         super::restorer::restore_on_err(rule, &super::to_optimized_hash_map(rules))
     }
+
+    use std::sync::atomic::{AtomicUsize, Ordering};
+
+    static STEPS: AtomicUsize = AtomicUsize::new(0);
+    static LIMIT: AtomicUsize = AtomicUsize::new(usize::MAX);
+
+    /// Message of the panic raised when the traversal step limit is exceeded.
+    pub const LIMIT_MESSAGE: &str = "verif: optimizer traversal step limit exceeded";
+
+    /// Resets the counter of expression-traversal steps (`map_top_down`, `map_bottom_up`,
+    /// `iter_top_down` of `Expr` and `OptimizedExpr`) and sets the limit (`usize::MAX` for none).
+    pub fn reset_steps(limit: usize) {
+        STEPS.store(0, Ordering::Relaxed);
+        LIMIT.store(limit, Ordering::Relaxed);
+    }
+
+    /// Reads the traversal step counter.
+    pub fn steps() -> usize {
+        STEPS.load(Ordering::Relaxed)
+    }
+
+    pub(crate) fn step() {
+        if STEPS.fetch_add(1, Ordering::Relaxed) >= LIMIT.load(Ordering::Relaxed) {
+            panic!("{}", LIMIT_MESSAGE);
+        }
+    }
 }
 
 /// Takes pest's ASTs and optimizes them
@@ -206,6 +232,8 @@ impl OptimizedExpr {
         where
             F: FnMut(OptimizedExpr) -> OptimizedExpr,
         {
+            #[cfg(pest_parser_pest_verif)]
+            verif::step();
             let expr = f(expr);
 
             match expr {
@@ -265,6 +293,8 @@ impl OptimizedExpr {
         where
             F: FnMut(OptimizedExpr) -> OptimizedExpr,
         {
+            #[cfg(pest_parser_pest_verif)]
+            verif::step();
             let mapped = match expr {
                 OptimizedExpr::PosPred(expr) => {
                     let mapped = Box::new(map_internal(*expr, f));
@@ -441,6 +471,8 @@ impl Iterator for OptimizedExprTopDownIterator {
     type Item = OptimizedExpr;
 
     fn next(&mut self) -> Option<Self::Item> {
+        #[cfg(pest_parser_pest_verif)]
+        verif::step();
         let result = self.current.take();
 
         if let Some(expr) = self.next.take() {
